@@ -49,7 +49,7 @@ type caseT struct {
 
 var nets = []string{"tcp", "unix"}
 var modes = []string{"LT", "ET", "ONESHOT"}
-var scenarios = []string{"peer-close", "peer-reset", "app-close", "app-close-error", "multi-close", "deadline", "overflow", "close-in-onopen", "stop", "multi-close", "backlog-reset", "backlog-close", "write-error"}
+var scenarios = []string{"peer-close", "peer-reset", "app-close", "app-close-error", "multi-close", "deadline", "overflow", "close-in-onopen", "stop", "multi-close", "backlog-reset", "backlog-close", "write-error", "peer-close-in-handler"}
 
 func genCase(r *h.Run, phase string, idx int) caseT {
 	rng := r.Rand("c03-"+phase, idx)
@@ -71,7 +71,7 @@ func genCase(r *h.Run, phase string, idx int) caseT {
 		if p.Origin == "dial" && p.Scenario == "close-in-onopen" {
 			p.Scenario = "app-close" // dialed connections get no open notification
 		}
-		if p.Scenario == "backlog-reset" || p.Scenario == "backlog-close" || p.Scenario == "write-error" {
+		if p.Scenario == "backlog-reset" || p.Scenario == "backlog-close" || p.Scenario == "write-error" || p.Scenario == "peer-close-in-handler" {
 			p.Traffic = false
 		}
 		if p.Scenario == "write-error" && phase != "shim" {
@@ -91,6 +91,10 @@ func genCase(r *h.Run, phase string, idx int) caseT {
 }
 
 // ---------------------------------------------------------------- recording
+
+type slowGate struct {
+	entered, release chan struct{}
+}
 
 type connRec struct {
 	plan       connPlan
@@ -200,7 +204,17 @@ func runCase(r *h.Run, c caseT) {
 		w.mu.Unlock()
 		atomic.AddInt64(&progress, 1)
 	}
-	env.OnData = func(cn *nbio.Conn, b []byte) { atomic.AddInt64(&progress, 1) }
+	// "peer-close-in-handler": the data handler of that connection is held while the peer sends more and
+	// closes, so the hang-up is dispatched while a handler (reading job) of the same connection is running
+	var slow sync.Map // *nbio.Conn -> *slowGate
+	env.OnData = func(cn *nbio.Conn, b []byte) {
+		atomic.AddInt64(&progress, 1)
+		if g, ok := slow.LoadAndDelete(cn); ok {
+			sg := g.(*slowGate)
+			close(sg.entered)
+			<-sg.release
+		}
+	}
 
 	// harness-side listener for "add" (we dial it ourselves, wrap our end) and "dial" origins
 	var ln net.Listener
@@ -408,6 +422,21 @@ func runCase(r *h.Run, c caseT) {
 					_ = tc.SetLinger(0)
 				}
 				cr.peer.Close()
+			case "peer-close-in-handler":
+				sg := &slowGate{entered: make(chan struct{}), release: make(chan struct{})}
+				slow.Store(cn, sg)
+				cr.expectPeer = true
+				_, _ = cr.peer.Write([]byte("A"))
+				select {
+				case <-sg.entered:
+					r.Count("hangup_while_handler_held", 1)
+				case <-time.After(5 * time.Second):
+				}
+				_, _ = cr.peer.Write(make([]byte, 1+prng.Intn(3000)))
+				cr.peer.Close()
+				// long enough for the poller to dispatch the hang-up (when it is not the poller itself that is held)
+				time.Sleep(time.Duration(1+prng.Intn(30)) * time.Millisecond)
+				close(sg.release)
 			case "app-close":
 				_ = cn.Close()
 				w.mu.Lock()
@@ -823,7 +852,7 @@ func runCase(r *h.Run, c caseT) {
 			if got != nil && !errors.Is(got, cr.causes[0].(syscall.Errno)) && !errors.Is(got, nbio.ErrOverflow) {
 				bad = fmt.Sprintf("the kernel failed a write with %v, the notification reports %v", cr.causes[0], got)
 			}
-		case "peer-close", "peer-reset", "backlog-reset", "backlog-close":
+		case "peer-close", "peer-reset", "backlog-reset", "backlog-close", "peer-close-in-handler":
 			if !cr.plan.Traffic && !isPeerClass(got) {
 				bad = fmt.Sprintf("peer closed the connection, the notification reports %v (expected EOF / reset class)", got)
 			}
